@@ -982,7 +982,7 @@ func cName(name string, pkgPrefix string) string {
 			underscore = true
 		}
 	}
-	if underscore {
+	if underscore && (len(s) > 0) {
 		s = s[:len(s)-1]
 	}
 	return string(s)
@@ -1018,6 +1018,8 @@ func (g *gen) gatherStatuses(b *buffer, n *a.Status) error {
 	msg, ok := t.Unescape(raw)
 	if !ok || msg == "" {
 		return fmt.Errorf("bad status message %q", raw)
+	} else if cName(msg, "") == "" {
+		return fmt.Errorf("bad status message %q: no letters or digits to derive a C name from", raw)
 	}
 	return g.addStatus(n.QID(), msg, n.Public())
 }
